@@ -12,7 +12,7 @@ Prefix == S("example.com/m@v1.0.0/")
 PathsCore == <<S("a"), S("A"), S("b.go"), S("go.mod"), S("GO.MOD"), S("sub/go.mod"), S("sub/a.go"), S("vendor/p/x.go"), S("vendor/modules.txt"),
                S("pkg/vendor/vendor.go"), S("pkg/vendor/p/x.go"), S("dir/f"), S("DIR/g"), S("b.go/c"), S("LICENSE"), S("a//b"), S("/abs"), S("con"), <<233>>, <<201>>>>
 PathsMore == <<S("Go.Mod"), S("sub/GO.MOD"), S("Sub/x"), S("vendor/x.go"), <<8490>>, S("k"), <<383>>, S("s"), S("aux.txt"), S("a~1"), S("a b"), S("."), S(".."), S("../a"),
-               S("a."), S(".hg_archival.txt"), S("a/b"), S("a/"), S("a/./b"), S("a/../b"), S("x*y"), S("sub/sub2/b.go"), S("vendor/modules.txt/x")>>
+               S("a."), S(".hg_archival.txt"), S("a/b"), S("a/"), S("a/./b"), S("a/../b"), S("x*y"), S("sub/sub2/b.go"), S("vendor/modules.txt/x"), <<181>>, <<924>>, <<956>>, <<946>>, <<914>>>>
 Paths == IF Size = "small" THEN PathsCore ELSE PathsCore \o PathsMore
 File(p, mode, size, lstat, gover) == [path |-> p, mode |-> mode, size |-> size, lstat |-> lstat, gover |-> gover]
 Variants(p) ==
@@ -24,7 +24,7 @@ Variants(p) ==
 AllFiles == UNION {Variants(Paths[i]) : i \in 1..Len(Paths)}
 \* archive entries
 Rel == <<S("a.go"), S("A.GO"), S("d/b.go"), S("D/c.go"), S("a.go/x"), S("go.mod"), S("Go.Mod"), S("sub/go.mod"), S("LICENSE"), S("../evil"), S("d/../../evil"),
-         S("/abs"), S("d//e"), S("./f"), S("d/"), S("con"), <<-255>>, S("d\\e"), <<>>, S("vendor/p/x.go")>>
+         S("/abs"), S("d//e"), S("./f"), S("d/"), S("con"), <<-255>>, S("d\\e"), <<>>, S("vendor/p/x.go"), <<924>>, <<956>>, <<181, 47, 97>>>>
 PrefixVariants == <<Prefix, S("example.com/M@v1.0.0/"), <<>>, S("example.com/m@v1.0.1/")>>
 Entry(n, sz) == [name |-> n, size |-> sz]
 EntryVariants == {Entry(Prefix \o Rel[i], "ok") : i \in 1..Len(Rel)}
